@@ -41,7 +41,8 @@ def tx_payload(parent, label):
     if name == 'x':       # empty block with the longest allowed reward data
         return [], K[5], dt + 1, {'cb_data': b'r' * 200}
     if name == 'y':       # empty block with 1 byte of reward data and a two-output reward
-        return [], K[5], dt + 2, {'cb_data': b'r', 'cb_outs': [(refmodel.subsidy(parent.height + 1) - 7, K[5]), (7, K[1])]}
+        # (both outputs pay the same key, which has never been paid before on any chain)
+        return [], K[5], dt + 2, {'cb_data': b'r', 'cb_outs': [(refmodel.subsidy(parent.height + 1) - 7, K[7]), (7, K[7])]}
     if name == 'f':       # funding: empty block mined by K0
         return [], K[0], dt
     if name == 's':       # split
@@ -67,6 +68,13 @@ def tx_payload(parent, label):
             return None
         v = u[o1[0]][0] + u[o1[1]][0]
         return [world.mk_tx([(oref(o1[0]), K[1]), (oref(o1[1]), K[1])], [(v // 2, K[0]), (v - v // 2 - 3, K[1])])], K[4], dt
+    if name == 'g':       # K0's largest output -> two outputs to a key never paid before + change
+        if not o0:
+            return None
+        v = u[o0[0]][0]
+        if v < 1000:
+            return None
+        return [world.mk_tx([(oref(o0[0]), K[0])], [(v // 4, K[6]), (v // 3, K[6]), (v - v // 4 - v // 3 - 2, K[0])])], K[4], dt + 5
     if name == 'd':       # two transactions in one block: 'a' and 'c'
         ra = tx_payload(parent, 'a')
         rc = tx_payload(parent, 'c')
